@@ -19,9 +19,12 @@ import traceback
 VERIF = os.path.dirname(os.path.dirname(os.path.abspath(__file__)))
 REPO = os.environ.get("VERIF_REPO", "/repo")
 COQ = os.path.join(VERIF, "coq")
-EVID = os.path.join(VERIF, "evidence")
-REPLAY = os.path.join(VERIF, "replay")
 WORKROOT = os.path.join(VERIF, ".work")
+# runs against a scratch tree (VERIF_REPO set by the seeded-change experiments) keep
+# their evidence / work files apart, so they never overwrite what a run on /repo wrote
+_SCRATCH = "" if os.path.realpath(REPO) == "/repo" else "__" + os.path.basename(os.path.realpath(REPO))
+EVID = os.path.join(VERIF, "evidence") if not _SCRATCH else os.path.join(WORKROOT, "evidence" + _SCRATCH)
+REPLAY = os.path.join(VERIF, "replay")
 KNOWN_DIR = os.path.join(VERIF, "known_findings.d")
 
 COQ_TIMEOUT = 600
@@ -100,7 +103,7 @@ class Ctx:
         self.seed = int(seed)
         self.t0 = time.time()
         self.rng = random.Random(self.seed * 1000003 + int(pid[1:]))
-        self.work = os.path.join(WORKROOT, pid)
+        self.work = os.path.join(WORKROOT, pid + _SCRATCH)
         os.makedirs(self.work, exist_ok=True)
         os.makedirs(EVID, exist_ok=True)
         os.makedirs(REPLAY, exist_ok=True)
